@@ -135,6 +135,16 @@ PROPS = {
             {'kind': 'custom', 'name': 'tsan', 'module': 'c14', 'fn': 'run', 'replay_fn': 'replay'},
         ],
     },
+    'C19': {
+        'rule': 'the finite matrix {310 documented API entries} x {SO2,SE2,SO3,SE3,SE_2_3,SGal3,R1,R3,R9, 2 bundles} x {float,double} x {owning, Map, Map<const>} of one-entry client programs, enumerated exhaustively (16120 cells); each cell must compile, link and, when run on three generated inputs, return the canonical member\'s result bit for bit; every cell is a distinct program, so distinct_nontrivial = cells that compiled and ran',
+        'engine': 'exhaustive program generation + compiler as oracle',
+        'assumptions': ['the entry table props/C19_entries.py is my reading of the README operation table and the doc-commented public members; instantiability is shown for this table only',
+                        'oracle: g++ -std=c++11 (clang++ too in the thorough tier) compile + link, then bit-for-bit comparison with the canonical member on owning copies'],
+        'level_note': 'exhaustive over the enumerated entry table and group/scalar/storage matrix, not over every possible client program; trusts g++/clang++',
+        'stages': [
+            {'kind': 'custom', 'name': 'c19', 'module': 'c19', 'fn': 'run', 'replay_fn': 'replay'},
+        ],
+    },
     'C15': {
         'rule': 'end points A and B = A (+) d with relative rotation < pi (strata of 1.3), t in {0,1}, (0,1) dense, outside [0,1] (+-1e-12..1e3, NaN, inf), the three methods, degrees 0..8, end velocities of norm 0..10, left translations g; exact-rational evaluation of the smoothing polynomial; non-trivial: 0<t<1, A != B, non-zero velocities for CUBIC/CNSMOOTH',
         'assumptions': ASSUME_ORACLE + ['smoothing_phi instantiated over the exact scalar vf::Rat for the monotonicity clause (2000-point grid per degree once per process + generated rational pairs)'],
